@@ -658,7 +658,16 @@ func (x *Exec) parse(ctx context.Context, query string) (wire.PreparedStatements
 		if _, has := st["toks"]; has && !B(st, "nodeclare") {
 			opts = append(opts, wire.WithParameters(wire.ParseParameters(query)))
 		} else if os := L(st, "oids"); len(os) > 0 {
-			po := make([]oid.Oid, len(os))
+			// the way applications declare typed parameters: count the placeholders with the library's helper,
+			// then write the types into the list it returned (the list is the caller's)
+			var sb strings.Builder
+			for i := range os {
+				fmt.Fprintf(&sb, "$%d ", i+1)
+			}
+			po := wire.ParseParameters(sb.String())
+			if len(po) != len(os) {
+				po = make([]oid.Oid, len(os))
+			}
 			for i, o := range os {
 				po[i] = oid.Oid(AsInt(o))
 			}
